@@ -90,49 +90,90 @@ def solve_slice(eng, ax, obs, tier):
 
 
 def solve_all(eng, tier):
-    """solve the obligations of one function; large sets are split over forked children (same z3 context image)"""
+    """solve the obligations of one function in forked children (same z3 context image, no serialisation).
+    Each child appends one JSON line per obligation; a child that makes no progress for longer than the hard
+    limit is killed (z3's timeout is soft), the obligation it was working on becomes `unknown`, and a fresh child
+    continues with the rest."""
+    import signal
     ax = eng.class_axioms()
     obs = eng.obligations
     n = len(obs)
+    if n == 0:
+        return []
     nproc = int(os.environ.get("PYVC_SOLVE_PROCS", "0")) or (8 if n > 300 else 4 if n > 80 else 1)
-    if nproc <= 1:
-        return solve_slice(eng, ax, obs, tier)
-    import tempfile
+    hard = float(os.environ.get("PYVC_HARD_LIMIT_S", str(4 * 4 * solve.Z3_TIMEOUT_MS / 1000.0 + 30)))
     tmpdir = os.path.join(os.path.dirname(os.path.dirname(os.path.abspath(__file__))), ".cache", "tmp")
     os.makedirs(tmpdir, exist_ok=True)
-    slices = [list(range(i, n, nproc)) for i in range(nproc)]
-    kids = []
-    for si, idxs in enumerate(slices):
-        path = os.path.join(tmpdir, "slice_%d_%d.json" % (os.getpid(), si))
+    out = [None] * n
+    queues = [list(range(i, n, nproc)) for i in range(nproc)]
+
+    def spawn(si, idxs):
+        path = os.path.join(tmpdir, "slice_%d_%d_%d.jsonl" % (os.getpid(), si, idxs[0]))
+        if os.path.exists(path):
+            os.unlink(path)
         pid = os.fork()
         if pid == 0:
             code = 0
             try:
-                res = solve_slice(eng, ax, [obs[i] for i in idxs], tier)
-                with open(path, "w") as fh:
-                    json.dump(res, fh)
+                with open(path, "a") as fh:
+                    for i in idxs:
+                        res = solve_slice(eng, ax, [obs[i]], tier)[0]
+                        fh.write(json.dumps([i, res]) + "\n")
+                        fh.flush()
             except BaseException:
                 traceback.print_exc()
                 code = 3
             os._exit(code)
-        kids.append((pid, path, idxs))
-    out = [None] * n
-    failed = False
-    for pid, path, idxs in kids:
-        _, status = os.waitpid(pid, 0)
-        if status != 0 or not os.path.exists(path):
-            failed = True
-            continue
-        with open(path) as fh:
-            res = json.load(fh)
-        os.unlink(path)
-        for i, o in zip(idxs, res):
-            out[i] = o
-    if failed:
-        # a child died: fall back to solving the missing ones here
-        missing = [i for i in range(n) if out[i] is None]
-        for i, o in zip(missing, solve_slice(eng, ax, [obs[i] for i in missing], tier)):
-            out[i] = o
+        return {"pid": pid, "path": path, "idxs": idxs, "done": 0, "last": time.time(), "si": si}
+
+    kids = [spawn(si, q) for si, q in enumerate(queues) if q]
+    while kids:
+        time.sleep(0.2)
+        for kid in list(kids):
+            # collect progress
+            try:
+                with open(kid["path"]) as fh:
+                    lines = fh.read().splitlines()
+            except OSError:
+                lines = []
+            if len(lines) > kid["done"]:
+                for ln in lines[kid["done"]:]:
+                    try:
+                        i, res = json.loads(ln)
+                    except ValueError:
+                        break
+                    out[i] = res
+                    kid["done"] += 1
+                    kid["last"] = time.time()
+            pid, status = os.waitpid(kid["pid"], os.WNOHANG)
+            finished = pid != 0
+            stuck = (not finished) and (time.time() - kid["last"] > hard)
+            if stuck:
+                try:
+                    os.kill(kid["pid"], signal.SIGKILL)
+                    os.waitpid(kid["pid"], 0)
+                except OSError:
+                    pass
+            if finished or stuck:
+                kids.remove(kid)
+                try:
+                    os.unlink(kid["path"])
+                except OSError:
+                    pass
+                rest = kid["idxs"][kid["done"]:]
+                if rest and (stuck or status != 0):
+                    i0 = rest[0]
+                    ob = obs[i0]
+                    out[i0] = {"name": ob.name, "kind": ob.kind, "clause": ob.clause, "verdict": "unknown", "time": round(hard, 1),
+                               "backend": "z3 (killed: hard limit)" if stuck else "z3 (child died)", "path": ob.trace, "props": ob.props,
+                               "reason": "solver exceeded the hard wall-clock limit" if stuck else "solver process died"}
+                    if rest[1:]:
+                        kids.append(spawn(kid["si"], rest[1:]))
+    for i in range(n):
+        if out[i] is None:
+            ob = obs[i]
+            out[i] = {"name": ob.name, "kind": ob.kind, "clause": ob.clause, "verdict": "unknown", "time": 0.0, "backend": "none",
+                      "path": ob.trace, "props": ob.props, "reason": "no result"}
     return out
 
 
